@@ -10,7 +10,7 @@ from ..rng import sub, digest
 from ..models.acndata import FakeServer, rfc1123, parse_rfc1123, InjectedValueError
 
 ID = "C20"
-RUNS = {"quick": 12000, "thorough": 300000}
+RUNS = {"quick": 60000, "thorough": 300000}
 BUDGET = {"quick": 45, "thorough": 780}
 CHUNK = 500
 DET_EVERY = 300
